@@ -216,12 +216,15 @@ def run(tier, seed):
              "different ACLs in and out / the same ACL twice / nothing, noise) rendered on both platforms, plus seeded "
              "random configurations of 3..14 shuffled sections (1..3 ACLs with remarks and group references on either "
              "side, groups defined once / twice / not at all, interfaces with 0..3 bindings incl. unknown ACLs, noise "
-             "sections with and without bodies), indentation 1..3, '!' lines, name filters incl. unknown names; "
+             "sections with and without bodies, nested group-object members (defined, undefined, self-referencing), ACL "
+             "names with punctuation and names differing in case only), indentation 1..3, '!' lines with and without "
+             "text (also inside sections), name filters incl. unknown names and names in another case, sometimes after an "
+             "earlier call on the configuration without its groups; "
              "every case is non-trivial; distinct = distinct (text, filter, function)",
         samples=[dict(text=jobs[i]["text"], filter=jobs[i].get("filter"), got=[{k: g[k] for k in g if k != "leaves"} for g in ev_lists[i][0]["got"]])
                  for i in (0, len(jobs) // 2, len(jobs) - 1)],
         model_checking=mcs, generation=gen, trace_validation=vstats, exhaustive=False,
-        checker_cmd="tlc MC_Config (P_Invariant, P_Once, P_Filter); tlc Trace_C07",
+        checker_cmd="tlc MC_Config (P_Invariant, P_Once, P_Filter, P_Flat, P_Plain); tlc Trace_C07",
     )
     return dict(verdicts=out, coverage=cov, level="model_checking", assumptions=[
         "domain: ACL sections with at least one body line and pairwise distinct section headers (the indentation dictionary "
